@@ -13,6 +13,7 @@ DEFAULT_KNOBS = dict(
     max_objects=5, max_interfaces=2, max_unions=2, max_enums=2, max_inputs=3, max_custom_scalars=2,
     max_fields=5, max_args=3, mutation_pct=35, subscription_pct=0, default_impl_pct=30,
     wrap_depth=3, arg_pct=45, root_default_impl=False, lag_pct=0, rename_roots_pct=0, subscription_default_impl_pct=0,
+    covariant_pct=20,
 )
 
 
@@ -155,6 +156,39 @@ def gen_schema(tape, knobs=None, stream="schema"):
                 for fname, f in s.t(ifn).fields.items():
                     if fname not in o.fields:
                         o.fields[fname] = _clone_field(f)
+
+    # an implementing field may be declared with a more specific type than the interface's field
+    # (non-null strengthening, possible object type of an abstract type, covariant list items) and
+    # with additional optional arguments
+    ct = tape.sub(stream + ".cov")
+    if k["covariant_pct"]:
+        def specialise(ty):
+            if is_nn(ty):
+                return NN(nullable(specialise(ty[1])))
+            inner = ty
+            if inner[0] == "L":
+                inner = L(specialise(inner[1]))
+            else:
+                nm_ = inner[1]
+                if s.kind_of(nm_) in ("INTERFACE", "UNION") and s.possible(nm_) and ct.chance(60):
+                    inner = N(ct.choose(s.possible(nm_)))
+            return NN(inner) if ct.chance(35) else inner
+
+        for nm in obj_names:
+            o = s.t(nm)
+            inherited = []
+            for ifn in o.interfaces:
+                for fn in s.t(ifn).fields:
+                    if fn not in inherited:
+                        inherited.append(fn)
+            for fn in inherited:
+                if ct.chance(k["covariant_pct"]):
+                    o.fields[fn].type = specialise(o.fields[fn].type)
+                if ct.chance(k["covariant_pct"] // 2):
+                    free = [a for a in ARG_NAMES if a not in o.fields[fn].args]
+                    if free:
+                        base = ct.choose(["Int", "String", "Boolean"])
+                        o.fields[fn].args[free[0]] = ArgDef(free[0], N(base), ABSENT if ct.chance(50) else gen_literal(s, N(base), ct, null_pct=10))
 
     # implementation style / concurrency flags per object field
     for nm in obj_names:
